@@ -62,7 +62,7 @@ func admitCase(out *bufio.Writer, gen int, hasOp, hasW, lim bool, maxCap, cost, 
 		c.limiter.maxCap.Store(maxCap)
 	}
 	f := newFacade(c)
-	f.addWatcher(wspec{id: 0, maxAttempts: maxAtt}, func(int, []int, []uint32) {})
+	f.addWatcher(wspec{id: 0, maxAttempts: maxAtt}, func(int, []int, []uint32, func() []int) {})
 	// one accepted operation first, so "unchanged" is not trivially "stays zero"
 	f.newOp(100, 0, 0, true)
 	pre := f.enqueue(100)
